@@ -3,12 +3,16 @@
    tools/rerun_seeded.py [id-prefix]"""
 import json, glob, os, subprocess, sys
 ROOT = os.path.dirname(os.path.dirname(os.path.abspath(__file__)))
-pref = sys.argv[1] if len(sys.argv) > 1 else ""
+pref = sys.argv[1] if len(sys.argv) > 1 and not sys.argv[1].startswith("--") else ""
+own_only = "--own" in sys.argv          # check only the property the change breaks (faster)
+skip = [a[len("--skip="):] for a in sys.argv if a.startswith("--skip=")]
 missed = []
 for mp in sorted(glob.glob(os.path.join(ROOT, "seeded", pref + "*", "meta.json"))):
     m = json.load(open(mp))
     sid = m["seeded_id"]
     props = m.get("properties_checked") or [m["breaks_property"]]
+    if own_only and m.get("breaks_property"): props = [m["breaks_property"]]
+    if any(k in sid for k in skip): continue
     d = os.path.dirname(mp)
     out = subprocess.run(["python3", os.path.join(ROOT, "tools", "try_mutant.py"), d, sid] + props + ["--skip-confirm"],
                          capture_output=True, text=True).stdout
